@@ -290,6 +290,21 @@ def main(argv=None):
             path = os.path.join(ROOT, 'replays', f'{pid}-bounded-{name}-{k}.json')
             write_replay(path, {'property': pid, 'bounded': name, 'failure': fl})
             violations.append((path, True, f'bounded:{name}', fl.get('what', '')))
+    # ------------------------------------------------------------------ harness canaries (soundness of the bounded layer)
+    from bounded.registry import HARNESS_CANARIES
+
+    hc_results = []
+    for (hpid, hname), fn in sorted(HARNESS_CANARIES.items()):
+        if hpid != pid or a.only:
+            continue
+        try:
+            caught = bool(fn())
+        except Exception:
+            crashes.append((f'harness-canary:{hname}', traceback.format_exc()))
+            continue
+        hc_results.append({'canary': hname, 'result': 'caught' if caught else 'SURVIVED'})
+        if not caught:
+            unsound.append((f'bounded harness of {pid}', [hname, 'injected wrong behaviour was not reported']))
     # ------------------------------------------------------------------ verdict + evidence
     for line in sorted(set(known_lines)):
         print(line)
@@ -323,6 +338,7 @@ def main(argv=None):
     be = sum(b.get('evaluations', 0) for b in bounded_out)
     bd = sum(b.get('distinct_nontrivial', 0) for b in bounded_out)
     cov['bounded_checks'] = bounded_out
+    cov['bounded_harness_canaries'] = hc_results
     cov['bounded_evaluations'] = be
     cov['bounded_distinct_nontrivial'] = bd
     if level != 'proof' or n_clause == 0:
